@@ -156,6 +156,30 @@ func c19NoRecover(c *vlib.Ctx) {
 			c.Count("prefixes_enumerated", lim+1)
 			c.End()
 		}
+		// one flag bit of the header changed AND the input cut at every length: optional parts that a flag switches on
+		// (pads, extra fields, trailers) meet every possible amount of remaining data
+		for si, seed := range cp.Seeds[t] {
+			if si >= c.Pick(2, 6) {
+				break
+			}
+			idx++
+			if !c.Begin(idx) {
+				continue
+			}
+			bits := min(len(seed), c.Pick(24, 48)) * 8
+			lim := min(len(seed), c.Pick(160, 400))
+			b := append([]byte{}, seed...)
+			for bit := 0; bit < bits; bit++ {
+				b[bit/8] ^= 1 << (bit % 8)
+				for n := bit/8 + 1; n <= lim; n++ {
+					s.one(t, b[:n:n], "bit-flip+prefix")
+				}
+				b[bit/8] ^= 1 << (bit % 8)
+				c.Step()
+			}
+			c.Count("bit_flip_prefix_variants", bits*lim)
+			c.End()
+		}
 		// structure-aware variants of the first seeds: tail stretched with the covering length fields adjusted
 		for si, seed := range cp.Seeds[t] {
 			if si >= c.Pick(40, 400) {
@@ -188,6 +212,9 @@ func c19NoRecover(c *vlib.Ctx) {
 				c.Count("word_sweep_variants", len(ws))
 				for _, b := range cp.LongRepeats(c.Rand(uint64(t), uint64(si), 99), seed, c.Pick(10, 60), 2*65536+300) {
 					s.one(t, b, "long-repeat")
+				}
+				for _, b := range cp.BigStretch(seed) {
+					s.one(t, b, "big-stretch")
 				}
 			}
 			c.End()
